@@ -66,6 +66,14 @@ CLAIMED = {
    text="Theorems (Props/C17.v): the validity helpers agree with the accessors; Host() succeeds only when the host option's content parses as an IP literal (model of net.ParseIP incl. the full IPv6 grammar, zones rejected); an IPv4 literal consists of digits and dots only; Port() returns the canonical decimal form of a number in 1..65535; IPVersion is the family of the returned address; option lookup returns the value of the first pair whose key content equals the requested key; StaticKey/IV have exactly 32/16 bytes. Hosts from literals, hostnames, zones, ports, whitespace; ports decimal/signed/padded/overflowing/non-numeric; prefix/extension keys; constructor and parser paths; compared with netip.ParseAddr as an independent reference.",
    design="8/C17", technique="Coq proof over executable model of net.ParseIP/strconv.Atoi + differential correspondence + independent reference oracle",
    note=NOTE_COMMON + "net.ParseIP / strconv.Atoi are modelled, not verified."),
+ "C16": dict(
+   text="PARTIAL. Theorems (Props/C16.v), with the primitives as parameters and their laws as explicit premises (DH agreement, AEAD correctness, key length): decrypt(encrypt x) = x for the library's layout eph(32)||nonce(12)||ct||tag(16); the four parts partition the data, so every byte is an input of the key agreement or the AEAD; short data is an error; the blinding date is a function of the UTC calendar day only and distinct days give distinct dates (exhaustive over all 49,711 days of the 32-bit range, bound stated). Harness: library encrypt -> library decrypt and an independent decryptor using the model's offsets; every/many single-byte ciphertext modifications and wrong keys must fail; blinding at instants either side of UTC midnight in seven locations (west and east of UTC) must use the UTC day, keep the other fields, be deterministic and pass/fail the library's own check.",
+   design="8/C16", technique="Coq proof with abstract primitives (laws as premises) + layout correspondence via an independent decryptor + blinding oracle",
+   note=NOTE_COMMON + "Partial: cryptographic strength (INT-CTXT, blinding injectivity) is a premise, not proved; 'any modified byte yields an error' holds under AEAD integrity."),
+ "C18": dict(
+   text="PARTIAL. Theorems (Props/C18.v): (general, by induction on the schedule) threads that never write shared state see under every interleaving exactly what they see alone and leave the heap unchanged; (per operation) every potential shared-write site reachable, through the module's static call graph regenerated from the Go source by a go/ssa scan on every run, from any exported method that is not a mutator is one of the reviewed sites. Harness: for every read-only call on parsed/constructed values a deep snapshot of everything reachable from the receiver (unexported fields and spare slice capacity included) and of the package tables must be unchanged; six goroutines run all read-only calls on one shared value, results compared with sequential ones, and the same run is repeated under Go's race detector.",
+   design="8/C18", technique="Coq proof (interleaving non-interference) over an SSA effect summary regenerated from source + frame check + race-detector run",
+   note=NOTE_COMMON + "Partial: the effect summary is a static over-approximation and the reviewed-site list (Model/EffectsReviewed.v) is trusted; Go's memory model is abstracted to sequentially consistent atomic steps; the scheduler is not modelled."),
  "C19": dict(
    text="Theorems (Props/C19.v): integer constructors identical; exact-length signature constructor accepts exactly what the reader consumes completely (all type codes); destination/router-identity readers are the generic reader plus filter; key certificate from bytes = from certificate after ReadCertificate. ~25 pairs of entry points are run on the same generated/mutated inputs and compared (acceptance, serialisation, remainder).",
    design="8/C19", technique="Coq proof over executable model + pairwise differential oracle on the implementation",
